@@ -246,6 +246,10 @@ pub fn deviations(step: usize, canon: &Value, client_id: &str, other_id: &str, t
         }
     } else {
         push("start-with-parameters".into(), mk_request(sname, Some(json!({"client_id": "x"})), flags), true);
+        // Start takes no parameters: an empty object or none at all. Any other JSON value in their place deviates.
+        for (n, p) in [("empty-array", json!([])), ("array-of-empty-object", json!([{}])), ("string", json!("start")), ("empty-string", json!("")), ("zero", json!(0)), ("float", json!(1.5)), ("true", json!(true)), ("false", json!(false))] {
+            push(format!("parameters-retyped:{}", n), mk_request(sname, Some(p), flags), false);
+        }
     }
     // client id
     if sname != "Start" {
